@@ -205,8 +205,9 @@ func StartServer(bootstrap bool) *Server {
 
 // MustLead aborts the harness (exit code 3, bin/check retries once) when the server is no longer leader:
 // that is an accident of the environment, not an observation of the code under test.
-func (s *Server) MustLead() {
-	if !s.Svr.GetMember().IsLeader() || s.Svr.GetRaftCluster() == nil {
+func (s *Server) MustLead(withCluster bool) {
+	// (GetRaftCluster takes the cluster's read lock: not while an operation is parked under the write lock)
+	if !s.Svr.GetMember().IsLeader() || (withCluster && s.Svr.GetRaftCluster() == nil) {
 		fmt.Fprintln(os.Stderr, "harness: the in-process PD server lost its leadership; aborting")
 		os.Exit(3)
 	}
